@@ -94,7 +94,8 @@ check('C08', 'color',
 check('C09', 'color',
       'TLA+ terminal model fed item by item with the real output (trace validation by TLC); configurations and their '
       'requested terminal state come from a TLC-enumerated builder',
-      'All foreground and all background specifications (names, -1..256, the 8^3 tuples around the cube, g-1..g25), '
+      'All foreground and all background specifications (names, -1..256, the 8^3 tuples around the cube, g-1..g25, bools, '
+      'floats, lists, other objects), constructed twice (the outcome must not depend on values used before), '
       'a representative cross product with all 32 effect combinations, no_color, text and bytes formatter, plus '
       'multi-chunk texts (built at once, and grown step by step with str()/format() between the extensions): every str() is tokenised independently of the package and accepted or rejected by the TLC '
       'acceptor (each character in exactly the requested state, default state at the end, no stray escape, '
@@ -138,11 +139,11 @@ check('C16', 'http',
       'code is run under a deterministic scheduler that enumerates all its schedules at shared-access granularity and '
       'every recorded execution is validated by TLC against the spec',
       'TLC explores every interleaving of 2 threads x 2 requests and 3 threads x 1 (x2 thorough) incl. caller supplied '
-      'ids and requests that fail after their number was handed out: Unique, GapFree (sent + lost numbers), MutualExclusion, termination.  harness/sched.py stops real threads before every load/store '
+      'ids, requests that fail after their number was handed out and a counter that starts at 9999: Unique, GapFree (sent + lost numbers), MutualExclusion, termination.  harness/sched.py stops real threads before every load/store '
       'of a shared mutable attribute of the underlying connection (found in the bytecode of the working tree) and at lock '
       'acquisition and enumerates all schedules by stateless DFS (a removed or narrowed lock just yields more '
       'schedules); each execution trace (loads, stores, lock events, ids handed to the opener) is judged by TLC: ids '
-      'distinct, gap free up to the numbers lost to failed requests, caller ids untouched, also when all requests share one caller headers dict (verdict) and the event sequence is a behaviour of ReqId (drift).',
+      'distinct, gap free up to the numbers lost to failed requests, caller ids untouched, also when all requests share one caller headers dict, for all five verbs (verdict) and the event sequence is a behaviour of ReqId (drift).',
       'Trusted: TLC, CPython 3.12 sys.monitoring, the cooperative lock shim. Instructions other than shared accesses '
       'are thread local.  Quick tier caps the schedules per configuration (evidence says when the cap was hit).',
       'DESIGN.md section 4, C16')
@@ -151,9 +152,10 @@ check('C17', 'http',
       'chain (TLC: Stable, AtMostOneAuth, CacheOwn); TLC-generated histories replayed on real objects, a probe request '
       'through every live connection after every action',
       'All histories of 3 actions (NewConn, Wrap with one adapter or a list, AuthWrap basic/token/client, NewCaller, '
-      'CloneCaller none/single/list, GetConn per component, AddAdapter, Request with 5 methods x 11 body kinds) exhaustively and '
+      'CloneCaller none/single/list (one list object shared by all derivations that use it), GetConn per component (two '
+      'components whose prefixes differ in the trailing slash), AddAdapter, Request with 5 methods x 11 body kinds) exhaustively and '
       'TLC simulations of 7 actions; after every action every live connection is probed and the captured urllib Request '
-      'compared with the spec: address, path segments (inner prefixes outermost), url-encoded params, exactly one '
+      'compared with the spec: address, path segments for an absolute and a relative request path (inner prefixes outermost), url-encoded params, exactly one '
       'Authorization header that decodes (credentials chosen so that + and / occur in the base64 form) to the configured credentials, adapter and caller headers, response processors in reverse order, body '
       'encoding, caller objects unchanged.',
       'Trusted: TLC; opener replaced by a recorder. One auth layer per chain; paths start with "/"; tuples of '
@@ -170,7 +172,7 @@ check('C18', 'xls',
       '{blank,a,b,0} for 1 (quick) / 2 (thorough) data rows, single and composite (2 attribute) keys, with and without trailing content, and simulates sheets of '
       'up to 4 rows; invariants OriginsHold and LadderEquivalence hold on the spec; the real reader must return the '
       'same objects (None for blank keys), attribute values, per-attribute / per-key / range origins, defaults for the '
-      'missing optional and the external attribute, and the ladder reading must equal the plain reading of the '
+      'missing optional and the external attribute, the same through the TableReader mixin of a derived class, and the ladder reading must equal the plain reading of the '
       'filled-in sheet produced by the spec.',
       'Trusted: TLC; mock worksheet (cells with value/coordinate/parent.title). Rule-set shape fixed as in the evidence '
       'assumptions; distinct column titles.',
